@@ -140,7 +140,7 @@ func discardHeaders(h *cose.Headers) {
 }
 
 var (
-	keyCacheMu sync.Mutex
+	keyCacheMu    sync.Mutex
 	verifierCache = map[string]cose.Verifier{}
 	signerCache   = map[string]cose.Signer{}
 )
